@@ -1199,8 +1199,11 @@ TRUSTED = [
     "(coq/theories/Selector.v); it takes the tokenizer's token list as input (the tokenizer model is C08's)",
     "str.lower() per-character table generated from the interpreter (final-sigma rule not modelled); "
     "Selector.normalize = helper.normalize checked on the harness's value pool only",
-    "the serializers (do_css_Selector, do_CSSPageRuleSelector) are not modelled: re-parse stability is checked on the "
-    "implementation only; of CSSPageRule._setCssText only the commit discipline is modelled: brace matching, "
+    "named hypothesis of the text-level specificity_reparse (ser_text_tokenizes): the tokenizer reads the serialised "
+    "text of a grammar selector as ser_tokens describes -- validated on every generated derivation "
+    "(ser_seq = selectorText, Tokenizer(selectorText) = ser_tokens), not proved; the token-level theorem needs no "
+    "hypothesis; shared models used: Upto.v, OutModel.v + Gen/Prefs.v, Gen/Quote.v (regenerated by their owners' checks)",
+    "do_CSSPageRuleSelector is not modelled: @page re-parse stability is oracle-only; of CSSPageRule._setCssText only the commit discipline is modelled: brace matching, "
     "declarations and margin rules enter as the observed block class (O/L/R, measured on a fresh rule by selectorText)",
     "CSSPageRule.__parseSelectorText is a hand transcription (no regenerated constants), tied by correspondence",
 ]
